@@ -497,8 +497,15 @@ def extend(rc):
             if m is not None:
                 return A(("nonempty", show_formula(_canon(m))))
             if isinstance(d, ast.Call) and call_name(d) == "all" and d.args and isinstance(d.args[0], (ast.GeneratorExp, ast.ListComp)):
+                all_calls[e.id] = d
                 return A(("all", e.id))
+        if isinstance(e, ast.Call) and call_name(e) == "all" and e.args and isinstance(e.args[0], (ast.GeneratorExp, ast.ListComp)):
+            key = f"all@{e.lineno}:{e.col_offset}"
+            all_calls[key] = e
+            return A(("all", key))
         return None
+
+    all_calls = {}
 
     f = path_formula(s, atomize)
     rc.ob(f"node {X} chosen under {show_formula(f)}")
@@ -514,7 +521,7 @@ def extend(rc):
                 f"found condition {show_formula(f)}", construct="sink condition")
     # the clique test itself
     for a in all_atoms:
-        gen = defs[a[1]].args[0]
+        gen = all_calls[a[1]].args[0]
         elt = gen.elt
         loops = [(g.target, g.iter) for g in gen.generators]
         filt = [i for g in gen.generators for i in g.ifs]
